@@ -6,11 +6,13 @@ package tlbx
 // formed (e.g. a constructor tag that becomes a prefix of another) breaks its obligation instead of moving silently
 // into this list.
 var NonWf = map[string]string{
-	"tlb.BlkPrevInfo": "two `$_` constructors; documented as 'only manual decoding' (BlockInfo decodes it by hand)",
-	"tlb.Magic":       "a Magic outside a tagged struct field has no tag to write",
-	"tlb.VmStack":     "decodes to the reversed list by the documented convention (theorem vmstack_convention instead)",
-	"wallet.Message":    "helper struct with plain *boc.Cell fields (a cell stored inline replaces the cell under construction)",
-	"wallet.RawMessage": "helper struct with a plain *boc.Cell field (a cell stored inline replaces the cell under construction)",
+	"tlb.BlkPrevInfo":                    "two `$_` constructors; documented as 'only manual decoding' (BlockInfo decodes it by hand)",
+	"tlb.Magic":                          "a Magic outside a tagged struct field has no tag to write",
+	"tlb.VmStack":                        "decodes to the reversed list by the documented convention (theorem vmstack_convention instead)",
+	"tlb.HashMapAugExtraList[tlb.Grams]": "helper tree of HashmapAug extras, recursive through non-optional pointers: no finite value can be encoded",
+	"tlb.HashMapAugExtraList[tlb.Uint5]": "helper tree of HashmapAug extras, recursive through non-optional pointers: no finite value can be encoded",
+	"wallet.Message":                     "helper struct with plain *boc.Cell fields (a cell stored inline replaces the cell under construction)",
+	"wallet.RawMessage":                  "helper struct with a plain *boc.Cell field (a cell stored inline replaces the cell under construction)",
 }
 
 // types that contain a hand-written codec whose round-trip lemma (CodecOK) is not proved yet: the model of the codec
